@@ -1,6 +1,6 @@
 #!/bin/sh
 # development helper: run every registered quick check in turn
 for p in C01 C02 C03 C04 C05 C06 C07 C08 C09 C10 C11 C12 C13 C14 C15 C16 C17 C18 C19 C20; do
-  /usr/bin/time -f "$p wall=%es" /verif/bin/goitsym check --property $p --tier ${1:-quick} > /tmp/vpq_$p.log 2>&1
+  /usr/bin/time -f "$p wall=%es" /verif/bin/goitsym check -j ${QJ:-16} --property $p --tier ${1:-quick} > /tmp/vpq_$p.log 2>&1
   echo "$p exit=$? $(tail -2 /tmp/vpq_$p.log | tr '\n' ' ')"
 done
